@@ -93,6 +93,8 @@ type caseSink struct {
 	start     time.Time
 	extra     map[string]any
 	header    string // extra vernacular after the imports (e.g. From RUN Require Gen_x.)
+	prefix    string // shard file prefix (default cases_); a second stream of one run uses its own
+	idBase    uint64 // added to the case ids of this stream
 }
 
 func newSink(dir, prop, imports, caseType, judge string, shardSize int) *caseSink {
@@ -105,8 +107,8 @@ func newSink(dir, prop, imports, caseType, judge string, shardSize int) *caseSin
 // kind a histogram key, nontrivialKey a key counted as distinct non-trivial case ("" = trivial).
 func (s *caseSink) add(coq, desc, kind, nontrivialKey string) {
 	s.n++
-	s.cur = append(s.cur, fmt.Sprintf("(%s, %s)", coqN(s.n), coq))
-	s.curDesc = append(s.curDesc, fmt.Sprintf("%d\t%s\t%s", s.n, desc, coq))
+	s.cur = append(s.cur, fmt.Sprintf("(%s, %s)", coqN(s.idBase+s.n), coq))
+	s.curDesc = append(s.curDesc, fmt.Sprintf("%d\t%s\t%s", s.idBase+s.n, desc, coq))
 	s.hist[kind]++
 	if nontrivialKey != "" {
 		s.nontriv[nontrivialKey] = true
@@ -136,7 +138,10 @@ func (s *caseSink) flush() {
 	b.WriteString("Definition R_fail_listed := Eval vm_compute in failing_listed verdicts.\n")
 	b.WriteString("Definition R_listed_ok := Eval vm_compute in listed_not_failing verdicts.\n")
 	b.WriteString("Print R_disagree.\nPrint R_fail_unlisted.\nPrint R_fail_listed.\nPrint R_listed_ok.\n")
-	name := fmt.Sprintf("cases_%04d", s.shard)
+	if s.prefix == "" {
+		s.prefix = "cases_"
+	}
+	name := fmt.Sprintf("%s%04d", s.prefix, s.shard)
 	must(os.WriteFile(filepath.Join(s.dir, name+".v"), []byte(b.String()), 0o644))
 	must(os.WriteFile(filepath.Join(s.dir, name+".tsv"), []byte(strings.Join(s.curDesc, "\n")+"\n"), 0o644))
 	s.shard++
